@@ -31,7 +31,8 @@ def is_err_value(e):
             return is_err_value(e["e"])
         if e["stmts"]:
             s = e["stmts"][-1]
-            if s.get("k") in ("Semi", "ExprStmt"):
+            # `return Err(..);` leaves with the error; a bare `Err(..);` statement is a *dropped* error
+            if s.get("k") in ("Semi", "ExprStmt") and peel(s["e"]).get("k") == "Ret":
                 return is_err_value(s["e"])
     return False
 
@@ -620,3 +621,25 @@ def structure_preserving(F, rep, rule, fn, enum, recursive, carrier="TyID"):
                     last(fn["_path"]), last(enum), v["name"], "every type edge remapped through %s" % last(recursive) if not bad else "; ".join(bad)),
                     line_of(arm))
     return n
+
+
+# --------------------------------------------------------------------------- dropped results
+
+def dropped_results(F, rep, rule, prefixes):
+    """an expression statement whose value is a Result is an error that nobody looks at (rustc only warns)"""
+    n = 0
+    for prefix in prefixes:
+        for fn in F.fns_in(prefix):
+            for blk in nodes(fn_body(fn), "Block"):
+                for st in blk["stmts"]:
+                    if st.get("k") not in ("Semi",):
+                        continue
+                    e = peel(st["e"])
+                    t = e.get("ty", "")
+                    if e.get("k") in ("Call", "MethodCall", "Match", "If", "Block") and t.startswith("core::result::Result<") \
+                            and "sylt_common::error::Error" in t:
+                        n += 1
+                        rep.ob(rule, "%s|%s" % (last(fn["_path"], 2), pp(e)[:50].replace("\n", " ")), False,
+                               "a value of type Result<_, Vec<Error>> is computed and dropped in %s: the error it may carry is never reported" % last(fn["_path"], 2),
+                               line_of(e))
+    rep.ob(rule, "census", True, "no dropped compile-error Result in %s (%d found)" % ([p.rstrip(":") for p in prefixes], n), sites=1)
